@@ -116,6 +116,12 @@ func WriteStats() {
 	if path == "" {
 		return
 	}
+	for _, a := range os.Args {
+		if strings.HasPrefix(a, "-test.fuzzworker") {
+			// native fuzzing runs the target in worker processes: one stats file each
+			path += fmt.Sprintf(".w%d", os.Getpid())
+		}
+	}
 	statsMu.Lock()
 	defer statsMu.Unlock()
 	var all []*Stats
